@@ -17,6 +17,21 @@ type etype struct {
 	Const bool
 }
 
+// class of the element type used in violation signatures (the type itself is in the detail)
+func (t *etype) class() string {
+	switch {
+	case t.Const && t.IsInt:
+		return "const-int"
+	case t.Const:
+		return "const-float"
+	case t.Real:
+		return "real"
+	case t.IsInt:
+		return "int"
+	}
+	return "float"
+}
+
 var etypes = map[string]*etype{}
 
 func init() {
